@@ -78,8 +78,13 @@ func (r *replayer) historyProbe() {
 		return ok
 	}
 	first := acc(*NewEnv(nil))
-	acc(NewEnv(nil))
+	viaPtr := acc(NewEnv(nil))
 	second := acc(*NewEnv(nil))
+	// Go's method sets: a pointer-receiver method belongs to the pointer, not to the value
+	if !viaPtr {
+		r.fail(Failure{Why: "pointer-environment-method-rejected", Src: "PtrM(1)", Mode: "ptr",
+			Tags: []string{"PtrM has a pointer receiver and the environment is passed by pointer"}})
+	}
 	if first != second {
 		r.fail(Failure{Why: "compile-depends-on-earlier-compiles", Src: "PtrM(1)", Mode: "struct",
 			Tags: []string{fmt.Sprintf("Env(value): accepted=%v; after Env(pointer) of the same type: accepted=%v", first, second)}})
